@@ -806,6 +806,7 @@ func runHistory(k int) {
 	if !want(id) {
 		return
 	}
+	nextCase()
 	rng := hk.Rng("c04", id)
 	w := &world{id: id, rng: rng, rel: map[relKey]bool{}, owner: map[any]int{}, r: &result{}, classes: map[string]bool{}}
 	tm.Reset()
